@@ -182,6 +182,10 @@ def run_job(job):
         return {"id": rid, "_harness_error": "%s: %r" % (type(e).__name__, e)}
 
 
+def detect_job(job):
+    return lc.detect_sequence(*job)
+
+
 def judge(ctx, pid, recs, scs, verdict):
     for r in recs:
         sc = scs[r["id"]]
@@ -209,6 +213,19 @@ def run(ctx):
     verdict = lc.validate(ctx, recs)
     judge(ctx, "C05", recs, scs, verdict)
     ctx.notes["c2s_runs"] = len(recs)
+    # the same path re-opened on one filesystem object after its bytes changed: detection follows the current bytes
+    drecs = []
+    for out in core.pmap(detect_job, [(10 ** 6 + 10 * i, ctx.seed * 37 + i) for i in range(150 if ctx.quick else 4000)], chunk=20):
+        drecs += out
+    dverdict = lc.validate(ctx, drecs)
+    for r in drecs:
+        ctx.traces += 1
+        ctx.evaluations += 1
+        cl = dverdict[r["id"]]["clause"]
+        if cl:
+            ctx.violation("C05:" + cl, "re-opening a changed file: tried %s, decodable %s, reported %r, exception %r" % (r["tried"], r["dec"], r["got"], r["exc"]),
+                          {"mode": "detect", "record": r})
+    ctx.notes["c2s_reopen_after_change_steps"] = len(drecs)
     ctx.notes["c2s_idempotence_pairs_claimed"] = sum(1 for r in recs if r["idem"]["ran"] and r["idem"]["sameenc"])
     ctx.sample({"c2s_scenario": lc.describe(scs[3]), "events": [[s["op"], s["name"], s["mode"], s["enc"]] for s in recs[3]["snaps"]]})
     ctx.exhaustive = True
